@@ -530,6 +530,19 @@ func (w *World) opAPIRelease() {
 		return
 	}
 	f := decodeFip(pick(w.C, fips))
+	// half of the time the administrator goes for an IP that is reserved for an identity whose pod is currently gone
+	// (the interesting race: the pod comes back while the release is in progress)
+	if w.C.Prob(1, 2) {
+		var reserved []*FipInfo
+		for _, o := range fips {
+			if x := decodeFip(o); isPodKey(x.Key) && w.M.idents[x.Key] != nil && w.livePodWithKey(x.Key) == nil {
+				reserved = append(reserved, x)
+			}
+		}
+		if len(reserved) > 0 {
+			f = pick(w.C, reserved)
+		}
+	}
 	e, ok := entryFromKey(f.IP, f.Key)
 	if !ok {
 		return
